@@ -1,8 +1,134 @@
-import BddVerif.Drive.Util
-/-! Driver for C05 — stub, to be written. -/
+import BddVerif.Drive.Tables
+import BddVerif.Model.Limit
+/-!
+Driver for C05: replays each observed call through the model (`fusedBinaryFlipOpWithLimit`,
+`checkFusedBinaryFlipOp`, `dryFull`, `cmpImplies`, panics included) and evaluates the property's own clauses on
+the implementation's outputs, the unrestricted result being the one observed from the Rust code too:
+  * limit: `Some(r)` exactly when the unrestricted result has at most `limit` nodes, and then `r` is identical
+    to it; otherwise `None`;
+  * dry run: the flag equals `!result.is_false()`; the (unlimited) task count is at least the number of decision
+    nodes of the result; `None` exactly when the task count exceeds the limit, and otherwise the same pair;
+  * `cmp_implies`: `Less/Equal/Greater/None` exactly by truth-table inclusion; `None` for different variable
+    counts.
+-/
 namespace B.Drive.C05
-open B B.Drive
+open B B.Lim B.Drive
 
-def handle (key : String) (_ins _obs : List String) : Verdict := Verdict.bad ("key " ++ key)
+def maxTT : Nat := 12
+
+def showLim : Outcome (Option Arr) → String
+  | .ok (some a) => showArr a
+  | .ok none => "none"
+  | .err _ => "err"
+  | .panic _ => "panic"
+
+def showPair (p : Bool × Nat) : String := s!"{if p.1 then 1 else 0},{p.2}"
+
+def showDry : Outcome (Option (Bool × Nat)) → String
+  | .ok (some p) => showPair p
+  | .ok none => "none"
+  | .err _ => "err"
+  | .panic _ => "panic"
+
+def parsePair? (s : String) : Option (Bool × Nat) :=
+  match s.splitOn "," with
+  | [f, c] => match c.toNat? with
+    | some c => if f == "1" then some (true, c) else if f == "0" then some (false, c) else none
+    | none => none
+  | _ => none
+
+def firstFail (xs : List (Option String)) : Option String := xs.findSome? id
+
+def mustPanic (L R : Arr) (fl fr fo : Option Nat) : Bool :=
+  numVars R != numVars L || [fl, fr, fo].any fun f => match f with | some x => x ≥ numVars L | none => false
+
+/-- number of decision nodes of a (result) array -/
+def decisionNodes (A : Arr) : Nat := A.size - 2
+
+def limCase (table conn l r fl fr fo limit : String) (obs : List String) (tag : String) : Verdict :=
+  match obs, conn.toNat?, parseArr? l, parseArr? r, parseOptNat? fl, parseOptNat? fr, parseOptNat? fo, limit.toNat? with
+  | [limited, unres], some c, some L, some R, some fl, some fr, some fo, some lim =>
+    let op := op2OfTable table
+    if !consistent2 op c then Verdict.bad "inconsistent table (harness bug)" else
+    let model := showLim (fusedBinaryFlipOpWithLimit lim L R op fl fr fo)
+    let fail :=
+      if mustPanic L R fl fr fo then
+        (if limited == "panic" && unres == "panic" then none else some "bounds:panic-expected")
+      else match parseArr? unres with
+        | none => some ("unrestricted-outcome:" ++ unres)
+        | some U =>
+          if limited == "none" then (if U.size ≤ lim then some "limit:none-although-result-fits" else none)
+          else match parseArr? limited with
+            | none => some ("limited-outcome:" ++ limited)
+            | some X => firstFail [if U.size ≤ lim then none else some "limit:some-although-result-too-large",
+                if X == U then none else some "limit:not-identical"]
+    let usz := (parseArr? unres).map (·.size) |>.getD 0
+    { agree := model == limited, model, fail,
+      nontrivial := usz > 2 && lim + 2 ≥ usz,
+      tags := [tag, if limited == "none" then "none" else if limited == "panic" then "panic" else "some",
+        if lim == usz then "lim=size" else if lim + 1 == usz then "lim=size-1" else if lim == 0 then "lim=0" else "lim-other",
+        if usz == 0 then "res-panic" else if usz == 1 then "res-false" else if usz == 2 then "res-true" else "res-nonconst"] }
+  | _, _, _, _, _, _, _, _ => Verdict.bad "args"
+
+def dryCase (table conn l r fl fr fo limit : String) (obs : List String) (tag : String) : Verdict :=
+  match obs, conn.toNat?, parseArr? l, parseArr? r, parseOptNat? fl, parseOptNat? fr, parseOptNat? fo, limit.toNat? with
+  | [dry, full, unres], some c, some L, some R, some fl, some fr, some fo, some lim =>
+    let op := op2OfTable table
+    if !consistent2 op c then Verdict.bad "inconsistent table (harness bug)" else
+    let model := showDry (checkFusedBinaryFlipOp lim L R op fl fr fo)
+    let panics := mustPanic L R fl fr fo
+    let modelFull := if panics then "panic" else showPair (dryFull L R op fl fr fo)
+    let fail :=
+      if panics then
+        (if dry == "panic" && full == "panic" && unres == "panic" then none else some "bounds:panic-expected")
+      else match parseArr? unres, parsePair? full with
+        | some U, some (flag, count) => firstFail [
+            if flag == (U.size != 1) then none else some "dry:flag-differs-from-not-is_false",
+            if count ≥ decisionNodes U then none else some "dry:count-below-decision-nodes",
+            if dry == "none" then (if count > lim then none else some "dry:none-although-count-within-limit")
+            else match parsePair? dry with
+              | none => some ("dry-outcome:" ++ dry)
+              | some p => firstFail [if count > lim then some "dry:some-although-count-exceeds-limit" else none,
+                  if p == (flag, count) then none else some "dry:limited-pair-differs-from-unlimited"]]
+        | _, _ => some ("outcome:" ++ full ++ "/" ++ unres)
+    let cnt := (parsePair? full).map (·.2) |>.getD 0
+    { agree := model == dry && modelFull == full, model := model ++ "/" ++ modelFull, fail,
+      nontrivial := cnt > 0,
+      tags := [tag, if dry == "none" then "none" else if dry == "panic" then "panic" else "some",
+        if lim == cnt then "lim=count" else if lim + 1 == cnt then "lim=count-1" else "lim-other",
+        if cnt > ((parseArr? unres).map decisionNodes |>.getD 0) then "count>nodes" else "count=nodes"] }
+  | _, _, _, _, _, _, _, _ => Verdict.bad "args"
+
+def showOrd : Option Ordering → String
+  | some .lt => "less"
+  | some .eq => "equal"
+  | some .gt => "greater"
+  | none => "none"
+
+def handle (key : String) (ins obs : List String) : Verdict :=
+  match key, ins with
+  | "C05.lim", [table, conn, l, r, fl, fr, fo, limit] => limCase table conn l r fl fr fo limit obs "lim"
+  | "C05.blim", [table, conn, l, r, limit] => limCase table conn l r "-" "-" "-" limit obs "blim"
+  | "C05.dry", [table, conn, l, r, fl, fr, fo, limit] => dryCase table conn l r fl fr fo limit obs "dry"
+  | "C05.bdry", [table, conn, l, r, limit] => dryCase table conn l r "-" "-" "-" limit obs "bdry"
+  | "C05.cmp", [a, b] =>
+    match obs, parseArr? a, parseArr? b with
+    | [res], some A, some B =>
+      let model := showOrd (cmpImplies A B)
+      let n := numVars A
+      let expected :=
+        if numVars B != n then "none"
+        else if n > maxTT then res
+        else
+          let ta := ttOf A n; let tb := ttOf B n
+          let ab := (List.range (2 ^ n)).all fun i => !ta[i]! || tb[i]!
+          let ba := (List.range (2 ^ n)).all fun i => !tb[i]! || ta[i]!
+          if ab && ba then "equal" else if ab then "less" else if ba then "greater" else "none"
+      { agree := model == res, model,
+        fail := if res == expected then none else some ("cmp_implies:expected-" ++ expected),
+        nontrivial := A.size > 2 && B.size > 2 && numVars B == n,
+        tags := ["cmp", res, if numVars B != n then "vars-differ" else "vars-equal"] }
+    | _, _, _ => Verdict.bad "args"
+  | _, _ => Verdict.bad ("key " ++ key)
 
 end B.Drive.C05
